@@ -13,6 +13,8 @@
 #include <unordered_map>
 #include <vector>
 #include "teakra_impl.gen.h"
+#include "teakra/teakra_c.h"
+#include "teakra_cobj.gen.h"   // verbatim copy of `struct TeakraObject` (src/teakra_c.cpp), see tools/gen_impl.py
 #include "access.hpp"
 #include "h.hpp"
 
@@ -114,21 +116,63 @@ struct ExtMemory {
     }
 };
 
+// The host API either through the C++ facade or through the C binding (src/teakra_c.cpp, `bus new capi`): the same
+// instance underneath, so every script of the unit also checks that the binding forwards faithfully.
+struct Api {
+    Teakra::Teakra* t = nullptr;
+    TeakraContext* c = nullptr;
+    u16 MMIORead(u16 a) { return c ? Teakra_MMIORead(c, a) : t->MMIORead(a); }
+    void MMIOWrite(u16 a, u16 v) { if (c) Teakra_MMIOWrite(c, a, v); else t->MMIOWrite(a, v); }
+    u16 DataRead(u16 a, bool b) { return c ? Teakra_DataRead(c, a, b) : t->DataRead(a, b); }
+    void DataWrite(u16 a, u16 v, bool b) { if (c) Teakra_DataWrite(c, a, v, b); else t->DataWrite(a, v, b); }
+    u16 ProgramRead(u32 a) { return c ? Teakra_ProgramRead(c, a) : t->ProgramRead(a); }
+    void ProgramWrite(u32 a, u16 v) { if (c) Teakra_ProgramWrite(c, a, v); else t->ProgramWrite(a, v); }
+    u16 DataReadA32(u32 a) { return c ? Teakra_DataReadA32(c, a) : t->DataReadA32(a); }
+    void DataWriteA32(u32 a, u16 v) { if (c) Teakra_DataWriteA32(c, a, v); else t->DataWriteA32(a, v); }
+    u8* GetDspMemory() { return c ? Teakra_GetDspMemory(c) : t->GetDspMemory(); }
+    void Run(unsigned n) { if (c) Teakra_Run(c, n); else t->Run(n); }
+    void Reset() { if (c) Teakra_Reset(c); else t->Reset(); }
+    bool SendDataIsEmpty(std::uint8_t i) { return c ? Teakra_SendDataIsEmpty(c, i) != 0 : t->SendDataIsEmpty(i); }
+    void SendData(std::uint8_t i, u16 v) { if (c) Teakra_SendData(c, i, v); else t->SendData(i, v); }
+    bool RecvDataIsReady(std::uint8_t i) { return c ? Teakra_RecvDataIsReady(c, i) != 0 : t->RecvDataIsReady(i); }
+    u16 RecvData(std::uint8_t i) { return c ? Teakra_RecvData(c, i) : t->RecvData(i); }
+    u16 PeekRecvData(std::uint8_t i) { return c ? Teakra_PeekRecvData(c, i) : t->PeekRecvData(i); }
+    void SetSemaphore(u16 v) { if (c) Teakra_SetSemaphore(c, v); else t->SetSemaphore(v); }
+    void ClearSemaphore(u16 v) { if (c) Teakra_ClearSemaphore(c, v); else t->ClearSemaphore(v); }
+    void MaskSemaphore(u16 v) { if (c) Teakra_MaskSemaphore(c, v); else t->MaskSemaphore(v); }
+    u16 GetSemaphore() { return c ? Teakra_GetSemaphore(c) : t->GetSemaphore(); }
+    u16 DMAChan0GetSrcHigh() { return c ? Teakra_DMAChan0GetSrcHigh(c) : t->DMAChan0GetSrcHigh(); }
+    u16 DMAChan0GetDstHigh() { return c ? Teakra_DMAChan0GetDstHigh(c) : t->DMAChan0GetDstHigh(); }
+    u16 AHBMGetUnitSize(u16 i) { return c ? Teakra_AHBMGetUnitSize(c, i) : t->AHBMGetUnitSize(i); }
+    u16 AHBMGetDirection(u16 i) { return c ? Teakra_AHBMGetDirection(c, i) : t->AHBMGetDirection(i); }
+    u16 AHBMGetDmaChannel(u16 i) { return c ? Teakra_AHBMGetDmaChannel(c, i) : t->AHBMGetDmaChannel(i); }
+    u16 AHBMRead16(u32 a) { return c ? Teakra_AHBMRead16(c, a) : t->AHBMRead16(a); }
+    void AHBMWrite16(u32 a, u16 v) { if (c) Teakra_AHBMWrite16(c, a, v); else t->AHBMWrite16(a, v); }
+    u16 AHBMRead32(u32 a) { return c ? Teakra_AHBMRead32(c, a) : t->AHBMRead32(a); }
+    void AHBMWrite32(u32 a, u32 v) { if (c) Teakra_AHBMWrite32(c, a, v); else t->AHBMWrite32(a, v); }
+};
+
 struct BusUnit {
-    std::unique_ptr<Teakra::Teakra> t;
+    std::unique_ptr<Teakra::Teakra> owned;
+    TeakraContext* ctx = nullptr;      // `new capi`: the instance lives inside a TeakraContext made by Teakra_Create()
+    Teakra::Teakra* t = nullptr;
+    Api api;
     std::vector<u8> user_buf;
     bool user = false;
     BusView v{};
     ExtMemory ext;
     List ev;
+    std::pair<BusUnit*, unsigned> recv_ud[3];
 
     void X(const char* k, int width, u32 a, u32 val) {
         ev.Add(std::string("x") + k + std::to_string(width) + ":" + Hex(a) + ":" + Hex(val));
     }
 
-    void New(bool use_user, bool has_seed, uint64_t seed, bool raw = false) {
-        t.reset();
-        user = use_user;
+    void New(bool use_user, bool has_seed, uint64_t seed, bool raw = false, bool capi = false) {
+        owned.reset();
+        if (ctx) { Teakra_Destroy(ctx); ctx = nullptr; }
+        t = nullptr;
+        user = use_user && !capi;
         Teakra::UserConfig cfg;
         if (user) {
             user_buf.assign(0x80000, 0);
@@ -136,10 +180,19 @@ struct BusUnit {
         } else {
             user_buf.clear();
         }
-        t = std::make_unique<Teakra::Teakra>(cfg);
-        if (user && t->GetDspMemory() != user_buf.data()) throw std::string("DIFF:raw-pointer");
+        if (capi) {
+            ctx = Teakra_Create();
+            t = &ctx->teakra;
+        } else {
+            owned = std::make_unique<Teakra::Teakra>(cfg);
+            t = owned.get();
+        }
+        api.t = t;
+        api.c = ctx;
+        if (user && api.GetDspMemory() != user_buf.data()) throw std::string("DIFF:raw-pointer");
+        if (capi && Teakra_GetDspMemory(ctx) != api.GetDspMemory()) throw std::string("DIFF:capi-raw-pointer");
         if (has_seed) {
-            u8* raw = t->GetDspMemory();
+            u8* raw = api.GetDspMemory();
             for (u32 wa = 0; wa < 0x40000; ++wa) {
                 u16 w = (u16)SplitMix(seed * 0x100000 + wa);
                 raw[2 * wa] = (u8)w;
@@ -150,10 +203,20 @@ struct BusUnit {
         ext.seed = has_seed ? seed : 0;
         ev.s.clear();
         v = TeakraBusView(*t);
+        if (capi) {
+            Teakra_SetAudioCallback(ctx, [](void* u, int16_t s[2]) {
+                static_cast<BusUnit*>(u)->ev.Add("a" + Hex((u16)s[0]) + ":" + Hex((u16)s[1])); }, this);
+            recv_ud[0] = {this, 0}; recv_ud[1] = {this, 1}; recv_ud[2] = {this, 2};
+            for (unsigned i = 0; i < 3; ++i)
+                Teakra_SetRecvDataHandler(ctx, (std::uint8_t)i, [](void* u) {
+                    auto* p = static_cast<std::pair<BusUnit*, unsigned>*>(u); p->first->ev.Add("d" + Hex(p->second)); }, &recv_ud[i]);
+            Teakra_SetSemaphoreHandler(ctx, [](void* u) { static_cast<BusUnit*>(u)->ev.Add("s"); }, this);
+        } else {
         t->SetAudioCallback([this](std::array<std::int16_t, 2> s) { ev.Add("a" + Hex((u16)s[0]) + ":" + Hex((u16)s[1])); });
         for (unsigned i = 0; i < 3; ++i)
             t->SetRecvDataHandler((std::uint8_t)i, [this, i] { ev.Add("d" + Hex(i)); });
         t->SetSemaphoreHandler([this] { ev.Add("s"); });
+        }
         Teakra::AHBMCallback cb;
         cb.read8 = [this](u32 a) { u8 r = (u8)ext.Read(a, 1); X("r", 8, a, r); return r; };
         cb.write8 = [this](u32 a, u8 w) { X("w", 8, a, w); ext.Write(a, w, 1); };
@@ -161,7 +224,18 @@ struct BusUnit {
         cb.write16 = [this](u32 a, u16 w) { X("w", 16, a, w); ext.Write(a, w, 2); };
         cb.read32 = [this](u32 a) { u32 r = ext.Read(a, 4); X("r", 32, a, r); return r; };
         cb.write32 = [this](u32 a, u32 w) { X("w", 32, a, w); ext.Write(a, w, 4); };
-        t->SetAHBMCallback(cb);
+        if (capi) {
+            Teakra_SetAHBMCallback(ctx,
+                [](void* u, uint32_t a) -> uint8_t { auto* b = static_cast<BusUnit*>(u); u8 r = (u8)b->ext.Read(a, 1); b->X("r", 8, a, r); return r; },
+                [](void* u, uint32_t a, uint8_t w) { auto* b = static_cast<BusUnit*>(u); b->X("w", 8, a, w); b->ext.Write(a, w, 1); },
+                [](void* u, uint32_t a) -> uint16_t { auto* b = static_cast<BusUnit*>(u); u16 r = (u16)b->ext.Read(a, 2); b->X("r", 16, a, r); return r; },
+                [](void* u, uint32_t a, uint16_t w) { auto* b = static_cast<BusUnit*>(u); b->X("w", 16, a, w); b->ext.Write(a, w, 2); },
+                [](void* u, uint32_t a) -> uint32_t { auto* b = static_cast<BusUnit*>(u); u32 r = b->ext.Read(a, 4); b->X("r", 32, a, r); return r; },
+                [](void* u, uint32_t a, uint32_t w) { auto* b = static_cast<BusUnit*>(u); b->X("w", 32, a, w); b->ext.Write(a, w, 4); },
+                this);
+        } else {
+            t->SetAHBMCallback(cb);
+        }
         // observe the ICU -> processor signalling in emission order, keeping the original wiring
         auto oi = A::IcuOnInterrupt(*v.icu);
         auto ov = A::IcuOnVectored(*v.icu);
@@ -169,14 +243,14 @@ struct BusUnit {
         A::IcuOnVectored(*v.icu) = [this, ov](u32 a, bool c) { ev.Add("v" + Hex(a) + ":" + Hex(c)); ov(a, c); };
         // the constructor leaves the ICU vector arrays uninitialised (`newraw` keeps them as constructed: C17)
         for (unsigned i = 0; i < 16 && !raw; ++i) {
-            t->MMIOWrite((u16)(0x212 + 4 * i), 0);
-            t->MMIOWrite((u16)(0x214 + 4 * i), 0);
+            api.MMIOWrite((u16)(0x212 + 4 * i), 0);
+            api.MMIOWrite((u16)(0x214 + 4 * i), 0);
         }
     }
 
     // ---- guards for what the C++ leaves undefined / endless
     static bool IsWindow(unsigned off) { return off >= 0x1C0 && off <= 0x1DE && off % 2 == 0; }
-    u16 Active() { return t->MMIORead(0x1BE); }
+    u16 Active() { return api.MMIORead(0x1BE); }
     void PreRead(unsigned off) {
         if (IsWindow(off) && Active() >= 8) throw std::string("oob");
     }
@@ -220,13 +294,13 @@ struct BusUnit {
         bool bad_window = Active() >= 8;
         for (unsigned off = 0; off < 0x800; ++off) {
             if (off == 0xC2 || off == 0xC6 || off == 0xCA) continue;
-            uint64_t val = (bad_window && IsWindow(off)) ? 0x10000 : t->MMIORead((u16)off);
+            uint64_t val = (bad_window && IsWindow(off)) ? 0x10000 : api.MMIORead((u16)off);
             h = FnvLE(h, val, 3);
         }
         return h;
     }
     uint64_t MemDigest() {
-        const u8* raw = t->GetDspMemory();
+        const u8* raw = api.GetDspMemory();
         uint64_t h = kFnvInit;
         for (u32 i = 0; i < 0x80000; ++i) h = FnvByte(h, raw[i]);
         return h;
@@ -259,7 +333,7 @@ struct BusUnit {
         bool bad_window = Active() >= 8;
         for (unsigned off = 0; off < 0x800; ++off) {
             if (IsFifo(off)) continue;
-            out[off] = (bad_window && IsWindow(off)) ? 0x10000u : t->MMIORead((u16)off);
+            out[off] = (bad_window && IsWindow(off)) ? 0x10000u : api.MMIORead((u16)off);
         }
     }
     // one write between two snapshots of every side-effect-free read
@@ -272,8 +346,8 @@ struct BusUnit {
         std::vector<uint32_t> before, after;
         Snapshot(before);
         ev.s.clear();
-        if (path == 0) t->MMIOWrite(host_addr, val);
-        else t->DataWrite((u16)dsp_addr, val, false);
+        if (path == 0) api.MMIOWrite(host_addr, val);
+        else api.DataWrite((u16)dsp_addr, val, false);
         std::string events = ev.Take();
         Snapshot(after);
         std::string chg;
@@ -286,10 +360,10 @@ struct BusUnit {
         if (!IsFifo(off)) {
             bool bad = IsWindow(off) && Active() >= 8;
             if (path == 0) {
-                rb = bad ? "oob" : Hex(t->MMIORead(host_addr));
+                rb = bad ? "oob" : Hex(api.MMIORead(host_addr));
             } else {
                 unsigned a2 = v.miu->mmio_base + off;
-                if (v.miu->z_page == 0 && a2 <= 0xFFFF) rb = bad ? "oob" : Hex(t->DataRead((u16)a2, false));
+                if (v.miu->z_page == 0 && a2 <= 0xFFFF) rb = bad ? "oob" : Hex(api.DataRead((u16)a2, false));
             }
         }
         ev.s.clear();
@@ -302,24 +376,24 @@ struct BusUnit {
         int off = WindowOff(addr, false);
         if (off < 0 || (off == 0x1DE && val == 0x40C0)) return "skip";
         PreWrite(off, val);
-        u8* raw = t->GetDspMemory();
+        u8* raw = api.GetDspMemory();
         std::vector<u8> before(raw, raw + 0x80000);
         std::string bad;
-        t->DataWrite(addr, val, false);
+        api.DataWrite(addr, val, false);
         if (std::memcmp(raw, before.data(), 0x80000) != 0) bad += "+mem-changed";
         std::string events = ev.Take();
         u32 conv;
         if (!Convert(addr, conv)) return std::string(bad.empty() ? "same" : "DIFF:" + bad.substr(1)) + " | " + events + " | noconv";
         u32 byte = conv * 2;
         u16 under = (u16)(before[byte] | (before[byte + 1] << 8));
-        if (t->DataRead(addr, true) != under) bad += "+bypass-read";
+        if (api.DataRead(addr, true) != under) bad += "+bypass-read";
         bool fifo = IsFifo(off), badw = IsWindow(off) && Active() >= 8;
-        u16 reg0 = (fifo || badw) ? 0 : t->MMIORead((u16)off);
-        t->DataWrite(addr, (u16)~val, true);
+        u16 reg0 = (fifo || badw) ? 0 : api.MMIORead((u16)off);
+        api.DataWrite(addr, (u16)~val, true);
         if ((u16)(raw[byte] | (raw[byte + 1] << 8)) != (u16)~val) bad += "+bypass-write";
         for (u32 i = 0; i < 0x80000; ++i)
             if (i != byte && i != byte + 1 && raw[i] != before[i]) { bad += "+other@" + Hex(i); break; }
-        u16 reg1 = (fifo || badw) ? 0 : t->MMIORead((u16)off);
+        u16 reg1 = (fifo || badw) ? 0 : api.MMIORead((u16)off);
         if (reg0 != reg1) bad += "+register-changed-by-bypass";
         ev.s.clear();
         return std::string(bad.empty() ? "same" : "DIFF:" + bad.substr(1)) + " | " + events + " | " + Hex(under);
@@ -327,14 +401,14 @@ struct BusUnit {
 
     std::string MirrorCheck(unsigned off) {
         PreRead(off);
-        u16 v0 = t->MMIORead((u16)off);
+        u16 v0 = api.MMIORead((u16)off);
         std::string bad;
         for (unsigned j = 1; j < 32; ++j)
-            if (t->MMIORead((u16)(off + 0x800 * j)) != v0) bad += "+mirror" + Hex(j);
+            if (api.MMIORead((u16)(off + 0x800 * j)) != v0) bad += "+mirror" + Hex(j);
         auto& m = *v.miu;
         unsigned addr = m.mmio_base + off;
         if (m.z_page == 0 && addr <= 0xFFFF && m.InMMIO((u16)addr)) {
-            if (t->DataRead((u16)addr, false) != v0) bad += "+data";
+            if (api.DataRead((u16)addr, false) != v0) bad += "+data";
         }
         return bad.empty() ? "same " + Hex(v0) : "DIFF:" + bad.substr(1) + " " + Hex(v0);
     }
@@ -342,13 +416,13 @@ struct BusUnit {
     // write `val` into the memory cell with word index w through `path`, then look at it through every view
     std::string ViewCheck(const std::string& path, u32 w, u16 val) {
         if (w >= 0x40000) throw std::string("bad-op");
-        u8* raw = t->GetDspMemory();
+        u8* raw = api.GetDspMemory();
         std::vector<u8> before(raw, raw + 0x80000);
         if (path == "pw") {
-            t->ProgramWrite(w, val);
+            api.ProgramWrite(w, val);
         } else if (path == "aw") {
             if (w < 0x20000) return "skip";
-            t->DataWriteA32(w - 0x20000, val);
+            api.DataWriteA32(w - 0x20000, val);
         } else if (path == "raw") {
             raw[2 * w] = (u8)val;
             raw[2 * w + 1] = (u8)(val >> 8);
@@ -358,22 +432,22 @@ struct BusUnit {
             bool byp = path == "dwb";
             u32 conv;
             if (!Convert(addr, conv) || conv != w || (!byp && v.miu->InMMIO(addr))) return "skip";
-            t->DataWrite(addr, val, byp);
+            api.DataWrite(addr, val, byp);
         } else {
             throw std::string("bad-op");
         }
         std::string bad;
-        if (t->ProgramRead(w) != val) bad += "+pr";
+        if (api.ProgramRead(w) != val) bad += "+pr";
         if (raw[2 * w] != (u8)val || raw[2 * w + 1] != (u8)(val >> 8)) bad += "+raw";
         if (user && (user_buf[2 * w] != (u8)val || user_buf[2 * w + 1] != (u8)(val >> 8))) bad += "+userbuf";
         if (w >= 0x20000) {
-            if (t->DataReadA32(w - 0x20000) != val) bad += "+ar";
-            if (t->DataReadA32((w - 0x20000) | 0xABC20000u) != val) bad += "+ar-mask";
+            if (api.DataReadA32(w - 0x20000) != val) bad += "+ar";
+            if (api.DataReadA32((w - 0x20000) | 0xABC20000u) != val) bad += "+ar-mask";
             u16 addr = (u16)((w - 0x20000) % 0x10000);
             u32 conv;
             if (Convert(addr, conv) && conv == w) {
-                if (t->DataRead(addr, true) != val) bad += "+dr-bypass";
-                if (!v.miu->InMMIO(addr) && t->DataRead(addr, false) != val) bad += "+dr";
+                if (api.DataRead(addr, true) != val) bad += "+dr-bypass";
+                if (!v.miu->InMMIO(addr) && api.DataRead(addr, false) != val) bad += "+dr";
             }
         }
         for (u32 i = 0; i < 0x80000; ++i)
@@ -443,9 +517,9 @@ struct BusUnit {
         const std::string& op = x[0];
         size_t n = x.size();
         if (op == "new" || op == "newraw") {
-            if (n < 2 || n > 3 || (x[1] != "own" && x[1] != "user")) throw std::string("bad-op");
+            if (n < 2 || n > 3 || (x[1] != "own" && x[1] != "user" && x[1] != "capi")) throw std::string("bad-op");
             uint64_t seed = n == 3 ? H(x[2]) : 0;
-            New(x[1] == "user", n == 3, seed, op == "newraw");
+            New(x[1] == "user", n == 3, seed, op == "newraw", x[1] == "capi");
             return "ok";
         }
         if (op == "fill" && n == 2) {   // byte every later heap allocation is pre-filled with (C17)
@@ -464,10 +538,10 @@ struct BusUnit {
 
     std::string Op(const Args& x, const std::string& op, size_t n, List& acc) {
         if (n == 1) {
-            if (op == "rst") { t->Reset(); return "ok"; }
-            if (op == "semget") return Hex(t->GetSemaphore()) + " | -";
-            if (op == "srchi") return Hex(t->DMAChan0GetSrcHigh()) + " | -";
-            if (op == "dsthi") return Hex(t->DMAChan0GetDstHigh()) + " | -";
+            if (op == "rst") { api.Reset(); return "ok"; }
+            if (op == "semget") return Hex(api.GetSemaphore()) + " | -";
+            if (op == "srchi") return Hex(api.DMAChan0GetSrcHigh()) + " | -";
+            if (op == "dsthi") return Hex(api.DMAChan0GetDstHigh()) + " | -";
             if (op == "tick") { v.core_timing->Tick(); return "ok" + E(); }
             if (op == "tstate") return TState();
             if (op == "digest") return Hex(Digest());
@@ -497,32 +571,32 @@ struct BusUnit {
         if (n == 4 && op == "viewcheck") return ViewCheck(x[1], (u32)H(x[2]), (u16)H(x[3]));
         if (n == 2) {
             uint64_t a = H(x[1]);
-            if (op == "mr") { PreRead(a & 0x7FF); u16 r = t->MMIORead((u16)a); return Hex(r) + E(); }
+            if (op == "mr") { PreRead(a & 0x7FF); u16 r = api.MMIORead((u16)a); return Hex(r) + E(); }
             if (op == "mirrorcheck") {
                 if (a >= 0x800 || a == 0xC2 || a == 0xC6 || a == 0xCA) throw std::string("bad-op");
                 return MirrorCheck((unsigned)a);
             }
-            if (op == "pr") { u16 r = t->ProgramRead((u32)a); return Hex(r) + " | - | " + acc.Take(); }
-            if (op == "ar") { u16 r = t->DataReadA32((u32)a); return Hex(r) + " | - | " + acc.Take(); }
-            if (op == "raw") { if (a >= 0x80000) throw std::string("bad-op"); return Hex(t->GetDspMemory()[a]); }
-            if (op == "recv") { unsigned i = Index(x[1]); return Hex(t->RecvData((std::uint8_t)i)) + " | -"; }
-            if (op == "peek") { unsigned i = Index(x[1]); return Hex(t->PeekRecvData((std::uint8_t)i)) + " | -"; }
-            if (op == "ready") { unsigned i = Index(x[1]); return Hex(t->RecvDataIsReady((std::uint8_t)i)) + " | -"; }
-            if (op == "empty") { unsigned i = Index(x[1]); return Hex(t->SendDataIsEmpty((std::uint8_t)i)) + " | -"; }
-            if (op == "semset") { t->SetSemaphore((u16)a); return "ok" + E(); }
-            if (op == "semclr") { t->ClearSemaphore((u16)a); return "ok" + E(); }
-            if (op == "semmask") { t->MaskSemaphore((u16)a); return "ok" + E(); }
-            if (op == "hr16") { u16 r = t->AHBMRead16((u32)a); return Hex(r) + E(); }
-            if (op == "hr32") { u16 r = t->AHBMRead32((u32)a); return Hex(r) + E(); }
-            if (op == "ausz") { unsigned i = Index(x[1]); return Hex(t->AHBMGetUnitSize((u16)i)) + " | -"; }
-            if (op == "adir") { unsigned i = Index(x[1]); return Hex(t->AHBMGetDirection((u16)i)) + " | -"; }
-            if (op == "adma") { unsigned i = Index(x[1]); return Hex(t->AHBMGetDmaChannel((u16)i)) + " | -"; }
+            if (op == "pr") { u16 r = api.ProgramRead((u32)a); return Hex(r) + " | - | " + acc.Take(); }
+            if (op == "ar") { u16 r = api.DataReadA32((u32)a); return Hex(r) + " | - | " + acc.Take(); }
+            if (op == "raw") { if (a >= 0x80000) throw std::string("bad-op"); return Hex(api.GetDspMemory()[a]); }
+            if (op == "recv") { unsigned i = Index(x[1]); return Hex(api.RecvData((std::uint8_t)i)) + " | -"; }
+            if (op == "peek") { unsigned i = Index(x[1]); return Hex(api.PeekRecvData((std::uint8_t)i)) + " | -"; }
+            if (op == "ready") { unsigned i = Index(x[1]); return Hex(api.RecvDataIsReady((std::uint8_t)i)) + " | -"; }
+            if (op == "empty") { unsigned i = Index(x[1]); return Hex(api.SendDataIsEmpty((std::uint8_t)i)) + " | -"; }
+            if (op == "semset") { api.SetSemaphore((u16)a); return "ok" + E(); }
+            if (op == "semclr") { api.ClearSemaphore((u16)a); return "ok" + E(); }
+            if (op == "semmask") { api.MaskSemaphore((u16)a); return "ok" + E(); }
+            if (op == "hr16") { u16 r = api.AHBMRead16((u32)a); return Hex(r) + E(); }
+            if (op == "hr32") { u16 r = api.AHBMRead32((u32)a); return Hex(r) + E(); }
+            if (op == "ausz") { unsigned i = Index(x[1]); return Hex(api.AHBMGetUnitSize((u16)i)) + " | -"; }
+            if (op == "adir") { unsigned i = Index(x[1]); return Hex(api.AHBMGetDirection((u16)i)) + " | -"; }
+            if (op == "adma") { unsigned i = Index(x[1]); return Hex(api.AHBMGetDmaChannel((u16)i)) + " | -"; }
             if (op == "gen") { GenRegs(a); return "ok"; }
             if (op == "run" || op == "steps") {   // Teakra::Run(a) resp. a times Teakra::Run(1)
                 if (a > 0x4000000) throw std::string("bad-op");
                 g_acc = nullptr;   // only the bounds check of the observer stays on
-                if (op == "run") t->Run((unsigned)a);
-                else for (uint64_t k = 0; k < a; ++k) t->Run(1);
+                if (op == "run") api.Run((unsigned)a);
+                else for (uint64_t k = 0; k < a; ++k) api.Run(1);
                 return "ok" + E();
             }
             if (op == "ticks") {
@@ -539,24 +613,24 @@ struct BusUnit {
         }
         if (n == 3) {
             uint64_t a = H(x[1]), b = H(x[2]);
-            if (op == "mw") { PreWrite(a & 0x7FF, (u16)b); t->MMIOWrite((u16)a, (u16)b); return "ok" + E(); }
+            if (op == "mw") { PreWrite(a & 0x7FF, (u16)b); api.MMIOWrite((u16)a, (u16)b); return "ok" + E(); }
             if (op == "dr") {
                 int off = WindowOff((u16)a, b != 0);
                 if (off >= 0) PreRead(off);
-                u16 r = t->DataRead((u16)a, b != 0);
+                u16 r = api.DataRead((u16)a, b != 0);
                 return Hex(r) + E() + " | " + (off >= 0 ? std::string("-") : acc.Take());
             }
-            if (op == "pw") { t->ProgramWrite((u32)a, (u16)b); return "ok | - | " + acc.Take(); }
-            if (op == "aw") { t->DataWriteA32((u32)a, (u16)b); return "ok | - | " + acc.Take(); }
+            if (op == "pw") { api.ProgramWrite((u32)a, (u16)b); return "ok | - | " + acc.Take(); }
+            if (op == "aw") { api.DataWriteA32((u32)a, (u16)b); return "ok | - | " + acc.Take(); }
             if (op == "wincheck") return WinCheck((u16)a, (u16)b);
             if (op == "rawset") {
                 if (a >= 0x80000) throw std::string("bad-op");
-                t->GetDspMemory()[a] = (u8)b;
+                api.GetDspMemory()[a] = (u8)b;
                 return "ok";
             }
-            if (op == "send") { unsigned i = Index(x[1]); t->SendData((std::uint8_t)i, (u16)b); return "ok" + E(); }
-            if (op == "hw16") { t->AHBMWrite16((u32)a, (u16)b); return "ok" + E(); }
-            if (op == "hw32") { t->AHBMWrite32((u32)a, (u32)b); return "ok" + E(); }
+            if (op == "send") { unsigned i = Index(x[1]); api.SendData((std::uint8_t)i, (u16)b); return "ok" + E(); }
+            if (op == "hw16") { api.AHBMWrite16((u32)a, (u16)b); return "ok" + E(); }
+            if (op == "hw32") { api.AHBMWrite32((u32)a, (u32)b); return "ok" + E(); }
             if (op == "btperiod") {
                 if (a >= 2 || b == 0 || b > 0xFFFF) throw std::string("bad-op");
                 A::BtPeriod((*v.btdmp)[a]) = (u16)b;
@@ -567,7 +641,7 @@ struct BusUnit {
             uint64_t a = H(x[1]), b = H(x[2]), c = H(x[3]);
             int off = WindowOff((u16)a, c != 0);
             if (off >= 0) PreWrite(off, (u16)b);
-            t->DataWrite((u16)a, (u16)b, c != 0);
+            api.DataWrite((u16)a, (u16)b, c != 0);
             // (a DMA started through the window reaches memory behind the facade: not an access of this call)
             return "ok" + E() + " | " + (off >= 0 ? std::string("-") : acc.Take());
         }
